@@ -1049,7 +1049,8 @@ def arg2config(key: str, cfg_type: type, value: ArgType) -> str:
     """
 
     def write_string(value: str) -> str:
-        return value
+        # "%" starts an interpolation in ConfigParser values; escape it
+        return value.replace("%", "%%")
 
     def write_int(value: int) -> str:
         return str(value)
@@ -1059,7 +1060,7 @@ def arg2config(key: str, cfg_type: type, value: ArgType) -> str:
 
     def write_list(value: list) -> str:
         # Serialized string representation of Python list type
-        return str(value).strip("[]").replace("'", "")
+        return str(value).strip("[]").replace("'", "").replace("%", "%%")
 
     handlers = {str: write_string, bool: write_bool, list: write_list, int: write_int}
 
